@@ -4,7 +4,8 @@ Decides (shape): R1 extent >= index for arrays allocated in the library, symboli
 unconstrained; R2 every bottom-tested vector loop has its first iteration justified; R3 in-function
 acquire/release pairing on all paths; R4 constructor/destructor and init/destroy pairing; R5 thread-exit
 release of per-thread processors; R6 collector ownership of parameter objects created by readers;
-R8 no address of thread storage escapes into longer-lived objects.
+R8 no address of thread storage escapes into longer-lived objects; R9 the arrays of an object created in a function
+(extent from its constructor arguments) cover what every callee indexes through it (field requirements of the callee).
 Not decided: index arithmetic inside the FFT kernels, user-chosen lifecycles, libfftw3/libstdc++ internals.
 """
 import re
@@ -12,6 +13,7 @@ import re
 from sa import api, asm, bounds, pairing, sym
 from sa.facts import Program, walk
 from sa.symexec import Hooks, run_function, flat
+from sa.sym import I
 
 
 def lib_functions(v):
@@ -34,6 +36,9 @@ def run(chk):
                "call narrows the window and is not re-derived")
     chk.assume("R1 covers arrays allocated in a function and subscripted there or in callees; arrays owned by records and "
                "subscripted by unrelated functions rely on the caller passing the matching parameter object")
+    chk.assume("R9: the parameter objects reached from one key or parameter set through in_out_params, tgsw_params/bk_params, "
+               "tlwe_params/accum_params and extracted_lweparams/extract_params are the linked objects of ONE parameter set "
+               "(the key constructors copy these pointers from each other; C04.R8 checks the FFT key against the coefficient key)")
     for v in prog.variants():
         vn = v.name
         chk.analysed["variants"] = chk.analysed.get("variants", 0) + 1
@@ -41,9 +46,11 @@ def run(chk):
         chk.analysed["functions"] = max(chk.analysed.get("functions", 0), len(fns))
         reqs = bounds.Requirements(v)
         rel = bounds.ctor_relations(v)
+        fext = bounds.object_field_extents(v)
         chk.set_count("R1.constructor_relations", len(rel))
         narr = 0
         npair = 0
+        nsized = 0
         for f in fns:
             if f.get("implicit") or f.get("defaulted"):
                 continue
@@ -55,6 +62,8 @@ def run(chk):
             narr += n
             for o in obs:
                 chk.ob("R1", o["key"], o["status"], where=o["where"], detail=o["detail"], variant=vn, data=o.get("data"))
+            # ---------------- R9
+            nsized += check_sized_objects(chk, v, f, rel, reqs, fext)
             # ---------------- R3
             tr, eff = pairing.function_pairing(v, f)
             if tr.allocs:
@@ -77,6 +86,7 @@ def run(chk):
                     chk.refuted("R3", "%s: %s" % (f.name, text[:80]), where="%s:%s" % (f.file, line), detail="%s: %s" % (kind, text),
                                 variant=vn)
         chk.set_count("R1.local_arrays", narr)
+        chk.set_count("R9.sized_object_uses", nsized)
         chk.set_count("R3.allocations_in_functions", npair)
         # ---------------- R4 / R5 constructor-destructor
         ctors = [f for f in fns if f.get("kind") == "ctor" and not f.get("implicit") and not f.get("defaulted") and not f.get("deleted")]
@@ -332,3 +342,102 @@ def loop_bound_terms(items, lp, regs, nout, ins_terms):
     if s[0] == "addr" and e[0] == "addr" and s[1][0] == "idx" and e[1][0] == "idx" and s[1][1] == e[1][1]:
         return s[1][2], e[1][2], strides.get(curr)
     return None
+
+
+# ------------------------------------------------------------------------------ R9: sized objects are large enough for their users
+ROLE_HOPS = {"in_out_params": "in", "extracted_lweparams": "ext", "extract_params": "ext", "extracted_params": "ext",
+             "tlwe_params": "tlwe", "accum_params": "tlwe", "tgsw_params": "tgsw", "bk_params": "tgsw"}
+
+
+def to_roles(t):
+    """Dimension atoms reached through the linked parameter objects of one key / parameter set are renamed by their role:
+    ...->in_out_params->n -> n_in; ...->tlwe_params->N / accum_params->N -> N (k likewise); extracted_lweparams.n -> N*k
+    (TLweParams constructor); ...->bk_params->l -> l.  -> (rewritten term, every dimension atom had a role)"""
+    m = {}
+    full = True
+    for a in sym.atoms(t):
+        if a[0] != "fld" or any(b != a and b[0] == "fld" and sym.contains(b, a) and b in sym.atoms(t) for b in []):
+            continue
+        # only leaf dimension fields
+        if a[2] not in ("n", "N", "k", "l", "kpl"):
+            continue
+        path = sym.path_of(a)
+        hops = [x[1:] for x in path[1:-1] if isinstance(x, str) and x.startswith(".")]
+        root = path[0][1] if path[0][0] == "sym" else None
+        owner = hops[-1] if hops else root
+        role = ROLE_HOPS.get(owner)
+        if role == "in" and a[2] == "n":
+            m[a] = sym.sym("n_in")
+        elif role == "ext" and a[2] == "n":
+            m[a] = sym.mul(sym.sym("N"), sym.sym("k"))
+        elif role == "tlwe" and a[2] in ("N", "k"):
+            m[a] = sym.sym(a[2])
+        elif role == "tgsw" and a[2] == "l":
+            m[a] = sym.sym("l")
+        elif role == "tgsw" and a[2] == "kpl":
+            m[a] = sym.mul(sym.add(sym.sym("k"), I(1)), sym.sym("l"))
+    t2 = sym.rewrite(t, m) if m else t
+    for a in sym.atoms(t2):
+        if a[0] == "fld" or (a[0] == "sym" and a[1] not in ("n_in", "N", "k", "l")):
+            full = False
+    return t2, full
+
+def check_sized_objects(chk, v, f, rel, reqs, fext):
+    """An object created in this function by new_<T>(args) owns arrays whose extents the constructor derives from those
+    arguments (LweSample::a has params->n elements).  A callee that receives the object indexes those arrays up to a bound
+    expressed in ITS parameters (its field requirement, e.g. lweAddTo: result->a up to params->n).  With the actual
+    arguments substituted, extent - requirement >= 0 must hold as a polynomial inequality over unconstrained dimensions."""
+    import re as _re
+    eff, st, ex = run_function(v, f, hooks=Hooks())
+    created = {}
+    n = 0
+    roots = {sym.sym(p["n"]): p["t"] for p in f.params}
+    R = lambda t: bounds.apply_relations(v, t, roots, rel) if rel else t
+    for x in flat(eff):
+        if x["e"] != "call" or x.get("usr") not in v.defs:
+            continue
+        g = v.defs[x["usr"]]
+        m = _re.match(r"^new_(\w+?)$", x["name"])
+        if m and not x["name"].endswith("_array") and x.get("ret") is not None and x["ret"][0] == "obj":
+            rec = m.group(1)
+            ext = {fl: e for (r_, fl), e in fext.items() if r_ == rec}
+            if ext and all(len(cp) == len(x["args"]) for _, cp in ext.values()):
+                created[x["ret"]] = (rec, ext, list(x["args"]), x["l"], x["name"])
+            continue
+        sub = reqs.of(x["usr"])
+        cnames = [p["n"] for p in g.params]
+        amap = {sym.sym(nm): (x["args"][i] if i < len(x["args"]) and x["args"][i] is not None else ("unk", "arg")) for i, nm in enumerate(cnames)}
+        for i, a in enumerate(x["args"]):
+            if a is None or a not in created:
+                continue
+            rec, ext, cargs, cline, cname = created[a]
+            for key_, lst in sub.items():
+                if not (isinstance(key_, tuple) and key_[0] == i and key_[1] in ext):
+                    continue
+                e_term, cparams = ext[key_[1]]
+                extent = R(sym.subst(e_term, {sym.sym(nm): (cargs[k] if cargs[k] is not None else ("unk", "arg")) for k, nm in enumerate(cparams)}))
+                worst = None
+                ext_r, ext_full = to_roles(extent)
+                for need, where2, detail in lst:
+                    need2 = R(sym.subst(need, amap))
+                    if bounds._has_unk(need2) or bounds._has_unk(extent):
+                        continue
+                    need_r, need_full = to_roles(need2)
+                    s_, d_ = bounds.decide_nonneg(sym.sub(ext_r, need_r))
+                    if s_ == "refuted" and not (ext_full and need_full):
+                        s_ = "unknown"          # a dimension that is not a parameter-set dimension (e.g. a polynomial's own N)
+                    if s_ != "proved" and (worst is None or s_ == "refuted"):
+                        worst = (s_, need2, where2, detail, d_)
+                n += 1
+                key = "%s: %s::%s of the object created at line %s is large enough for %s" % (f.name, rec, key_[1], cline, x["name"])
+                where = "%s:%s" % (f.file, x["l"])
+                if worst is None:
+                    chk.proved("R9", key, where=where, detail="extent %s covers every index %s uses" % (sym.show(extent)[:60], x["name"]), variant=v.name)
+                else:
+                    s_, need2, where2, detail, d_ = worst
+                    chk.ob("R9", key, "refuted" if s_ == "refuted" else "assumed", where=where,
+                           detail="%s(%s) gives %s %s elements; %s accesses %s (%s), i.e. up to %s with the arguments of this call: %s" % (
+                               cname, ", ".join(sym.show(c)[:40] for c in cargs if c is not None), key_[1], sym.show(extent)[:60], x["name"], detail[:60], where2,
+                               sym.show(need2)[:60], d_[:120]), variant=v.name,
+                           data={"extent": sym.show(extent), "needed": sym.show(need2)})
+    return n
